@@ -35,7 +35,7 @@ namespace glm
 	template<typename T, qualifier Q>
 	GLM_FUNC_DECL vec<4, bool, Q> equal(qua<T, Q> const& x, qua<T, Q> const& y);
 
-	/// Returns the component-wise comparison of |x - y| < epsilon.
+	/// Returns the component-wise comparison of |x - y| <= epsilon.
 	///
 	/// @tparam T Floating-point scalar types
 	/// @tparam Q Value from qualifier enum
@@ -49,7 +49,7 @@ namespace glm
 	template<typename T, qualifier Q>
 	GLM_FUNC_DECL vec<4, bool, Q> notEqual(qua<T, Q> const& x, qua<T, Q> const& y);
 
-	/// Returns the component-wise comparison of |x - y| >= epsilon.
+	/// Returns the component-wise comparison of |x - y| > epsilon.
 	///
 	/// @tparam T Floating-point scalar types
 	/// @tparam Q Value from qualifier enum
